@@ -56,7 +56,7 @@ BADTEXT = ['abc', '', '\u00b2', '\u2460\u2082',      # incl. digit-like characte
            '1e999']                                      # ... and a spelling whose value no sheet can hold
 DATES = [D(2019, 11, 20), D(2000, 2, 29), D(1900, 3, 1)]
 DATETIMES = [D(2019, 11, 20, 6, 0), D(2019, 11, 20, 18, 30, 15)]
-DATETEXT = ['2019-11-20']
+DATETEXT = ['2019-11-20', '2019-11-20T00:00:00Z']      # the second: ISO text with a zone designator (same wall-clock date)
 SCALARS = INTS + DECS + [True, False, None] + NUMTEXT + BADTEXT + DATES + DATETIMES + DATETEXT
 
 E7 = [2, 0.5, True, None, 'abc', D(2019, 11, 20), 0]          # array elements
@@ -68,7 +68,7 @@ APOOLS = {'E7': E7, 'E4': E4, 'E3': E3, 'E2': E2, 'EL': EL}
 S9 = [3, -2.5, False, None, '3', 'abc', D(2000, 2, 29), 0, D(2019, 11, 20, 6, 0)]   # scalars met by arrays
 SL = [3, '3', False, 'abc', 0, None]                           # literal-able scalars met by literal arrays
 
-CONCAT = SCALARS + [2.0, -3.0, 100.0, 'a b', 'None', 200000000, '2.0', '10.00', '1e3', '007', '+3', ' 3', '3 ', 'TRUE', '1E2']
+CONCAT = SCALARS + [2.0, -3.0, 100.0, 1e15, 9007199254740992.0, 'a b', 'None', 200000000, '2.0', '10.00', '1e3', '007', '+3', ' 3', '3 ', 'TRUE', '1E2']
 
 # ---------------------------------------------------------------------------- the conversion table
 # 'd' = the result is a date, 'n' = a number.  Transcribed cell by cell from the tests:
@@ -115,7 +115,7 @@ KIND = {
 }
 
 NUM_RE = re.compile(r'[+-]?(?:[0-9]+(?:\.[0-9]*)?|\.[0-9]+)\Z', re.ASCII)
-ISO_RE = re.compile(r'([0-9]{4})-([0-9]{2})-([0-9]{2})\Z', re.ASCII)
+ISO_RE = re.compile(r'(\d{4})-(\d{2})-(\d{2})(?:T00:00:00Z)?\Z')      # a midnight with a zone designator is that date
 
 # delivery-channel differential (core.Env): of every 2 evaluations that bind variables, one is repeated with the
 # values handed in by the cell/range listeners and one with the values returned by custom functions; outcomes must agree
@@ -647,6 +647,54 @@ class Extremes(Sub):
         return out
 
 
+class RangeShapes(Sub):
+    name = 'c06.range_shapes'
+    rule = ('arrays as a host delivers ranges - one row [[a,b,c]], one column [[a],[b],[c]], one cell [[a]] - x + - * / against '
+            'a range of the same shape (element-wise, same shape back), against a scalar, and a one-cell range against a row or '
+            'column (acts as its item) over a 4-value pool; non-trivial = all')
+    min_cases = 4
+    min_nontrivial = 500
+    POOL = [2, -0.5, 10, 3]
+
+    def cases(self, tier, unit):
+        for op in OPS:
+            yield [op]
+
+    def check(self, env, case):
+        from fractions import Fraction as Fr
+        op = case[0]
+        out = []
+
+        def ar(a, b):
+            if op == '/' and b == 0:
+                return None
+            return float({'+': Fr(a) + Fr(b), '-': Fr(a) - Fr(b), '*': Fr(a) * Fr(b), '/': Fr(a) / Fr(b)}[op])
+        P = self.POOL
+        for xs in itertools.product(P, repeat=3):
+            for ys in ((P[1], P[0], P[3]), (P[2], P[2], P[1])):
+                env.nt()
+                probes = [([list(xs)], [list(ys)], [[ar(a, b) for a, b in zip(xs, ys)]]),
+                          ([[a] for a in xs], [[b] for b in ys], [[ar(a, b)] for a, b in zip(xs, ys)]),
+                          ([list(xs)], ys[0], [[ar(a, ys[0]) for a in xs]]), (ys[0], [[a] for a in xs], [[ar(ys[0], a)] for a in xs]),
+                          ([[ys[1]]], [list(xs)], [[ar(ys[1], a) for a in xs]]), ([[a] for a in xs], [[ys[1]]], [[ar(a, ys[1])] for a in xs]),
+                          ([[xs[0]]], [[ys[0]]], [[ar(xs[0], ys[0])]])]
+                for a, b, want in probes:
+                    o = env.evo('xa%sxb' % op, {'xa': a, 'xb': b})
+
+                    def same(x, y):
+                        if isinstance(y, list):
+                            return isinstance(x, list) and len(x) == len(y) and all(same(p, q) for p, q in zip(x, y))
+                        return isinstance(x, (int, float)) and not isinstance(x, bool) and close(x, y)
+                    flat = lambda v: [t for r in v for t in r] if v and isinstance(v[0], list) else v
+                    ok = o[0] == 'v' and (same(o[1], want) or same(o[1], flat(want)) or (len(flat(want)) == 1 and same(o[1], flat(want)[0])))
+                    if not ok:
+                        out.append(fail('xa%sxb with xa = %r, xb = %r (ranges as the host delivers them) gives %r, expected %r element-wise' % (
+                            op, a, b, o, want), want, o))
+                        if len(out) >= 4:
+                            return out
+        return out
+
+
 class Nested(Base):
     name = 'c06.nested'
     rule = ('every 2x2 nested array over 3 [quick] / 4 [thorough] element values x {+,-,*,/} against: 9 scalars '
@@ -742,7 +790,7 @@ def text_of(v):
         return None
     if isinstance(v, int):
         return str(v)
-    if isinstance(v, float) and v.is_integer() and abs(v) < 1e15:
+    if isinstance(v, float) and v.is_integer() and abs(v) <= 2 ** 53:
         return str(int(v))       # an integer is an integer however it arrives (4/2, a float-typed cell): its digits
     if isinstance(v, str):
         return v
@@ -1022,5 +1070,5 @@ class ArrayScale(Sub):
         return out
 
 
-SUBS = [ScalarPairs(), ArrayScalar(), ArrayArray(), Mismatch(), OneItem(), Extremes(), Nested(), LiteralArrays(), Concat(), EarlyDates(),
+SUBS = [ScalarPairs(), ArrayScalar(), ArrayArray(), Mismatch(), OneItem(), RangeShapes(), Extremes(), Nested(), LiteralArrays(), Concat(), EarlyDates(),
         ExactIntegers(), ArrayReuse(), ArrayScale()]
